@@ -81,6 +81,10 @@ func TestC01(t *testing.T) {
 				if c.Fork {
 					ev.Class("run-on-CPUs-created-with-InitFrom")
 				}
+				if c.Steps > 1 && d.Intn("swap-bus", 50) == 0 {
+					c.SwapAt = 1 + d.Intn("swap-at", c.Steps-1)
+					ev.Class("CPU.Bus-assigned-in-the-middle-of-the-program")
+				}
 				var st lockstepStats
 				err := rig.Safe(func() error {
 					defer r.Deadman("lockstep", &c)()
